@@ -23,7 +23,8 @@ EXTENDS Naturals, Sequences, FiniteSets, TLC, VerifIO
 CONSTANTS MaxFields,    \* longest field list
           MinFields,
           MethodLists,  \* name of the set of method lists enumerated
-          Exported      \* set of BOOLEAN: field/method names capitalised or not
+          Exported,     \* set of BOOLEAN: field/method names capitalised or not
+          Tagged        \* set of BOOLEAN: every spec of the var block carries a struct tag `k:"<first name>"`
 
 Types == {"int", "string", "float64", "bool", "ints", "smap", "ptr"}   \* []int, map[string]int, *Self
 Templates == <<"sum", "bump", "pair", "flag", "reset", "twice">>
@@ -56,13 +57,13 @@ Merge(fs, i) == IF i > Len(fs) THEN <<>>
 Block(fs, g) == IF g = "lines" THEN [i \in 1..Len(fs) |-> [names |-> <<i>>, type |-> fs[i]]] ELSE Merge(fs, 1)
 
 VARIABLES fields,    \* seq of Types
-          grouping, exported, methods,
+          grouping, exported, tagged, methods,
           twin,      \* [fields: seq of [ix, type], methods: seq of [name, params, results, recv]]
           obj,       \* abstract object: seq of values, one per field
           out,       \* expected driver output: seq of [tag, vals]
           pass, mi,  \* driver position
           pc
-vars == <<fields, grouping, exported, methods, twin, obj, out, pass, mi, pc>>
+vars == <<fields, grouping, exported, tagged, methods, twin, obj, out, pass, mi, pc>>
 
 NF == Len(fields)
 Has(m) == \E i \in 1..Len(methods) : methods[i] = m
@@ -103,6 +104,7 @@ FieldSeqs == UNION { [1..n -> Types] : n \in MinFields..MaxFields }
 Init == /\ fields \in FieldSeqs
         /\ grouping \in Groupings(fields)
         /\ exported \in Exported
+        /\ tagged \in Tagged
         /\ methods \in MLists(MethodLists)
         /\ twin = [fields |-> <<>>, methods |-> <<>>]
         /\ obj = <<>> /\ out = <<>> /\ pass = 0 /\ mi = 0 /\ pc = "class"
@@ -110,7 +112,9 @@ Init == /\ fields \in FieldSeqs
 \* struct fields of a var block: for every spec, for every name, in order
 RECURSIVE Flatten(_, _)
 Flatten(blk, j) == IF j > Len(blk) THEN <<>>
-                   ELSE [n \in 1..Len(blk[j].names) |-> [ix |-> blk[j].names[n], type |-> blk[j].type]] \o Flatten(blk, j + 1)
+                   ELSE [n \in 1..Len(blk[j].names) |-> [ix |-> blk[j].names[n], type |-> blk[j].type,
+                                                              \* parser parseValueSpec (class file): one tag per spec, shared by its names
+                                                              tag |-> IF tagged THEN blk[j].names[1] ELSE 0]] \o Flatten(blk, j + 1)
 
 \* cl/compile.go preloadGopFile: ld.typInit walks classDecl.Specs, then spec.Names, in order;
 \* preloadFile/preloadFuncDecl: a func without receiver gets classRecv = (this *Class)
@@ -121,7 +125,7 @@ BuildTwin ==
                                                        results |-> Results(methods[j]), recv |-> "ptr-this"]]]
   /\ obj' = [i \in 1..NF |-> Init0(fields[i], i)]      \* o := &C{positional initial values}
   /\ pass' = 1 /\ mi' = 1 /\ pc' = "run"
-  /\ UNCHANGED <<fields, grouping, exported, methods, out>>
+  /\ UNCHANGED <<fields, grouping, exported, tagged, methods, out>>
 
 \* driver: call method mi of the current pass and print its results
 Call ==
@@ -130,7 +134,7 @@ Call ==
        /\ obj' = r.obj
        /\ out' = Append(out, [tag |-> methods[mi], vals |-> r.res])
   /\ mi' = mi + 1
-  /\ UNCHANGED <<fields, grouping, exported, methods, twin, pass, pc>>
+  /\ UNCHANGED <<fields, grouping, exported, tagged, methods, twin, pass, pc>>
 
 \* driver: dump every field, then start pass 2 or stop
 Dump ==
@@ -138,7 +142,7 @@ Dump ==
   /\ out' = out \o [i \in 1..NF |-> [tag |-> "field", vals |-> << V("int", i), V(fields[i], obj[i]) >>]]
   /\ IF pass = 1 THEN pass' = 2 /\ mi' = 1 /\ pc' = "run"
                  ELSE pass' = pass /\ mi' = mi /\ pc' = "done"
-  /\ UNCHANGED <<fields, grouping, exported, methods, twin, obj>>
+  /\ UNCHANGED <<fields, grouping, exported, tagged, methods, twin, obj>>
 
 Next == BuildTwin \/ Call \/ Dump
 Spec == Init /\ [][Next]_vars /\ WF_vars(Next)
@@ -151,6 +155,8 @@ TypeOK == /\ pc \in {"class", "run", "done"} /\ pass \in 0..2 /\ NF \in MinField
 TwinSame == pc # "class" =>
    /\ Len(twin.fields) = NF
    /\ \A i \in 1..NF : twin.fields[i].ix = i /\ twin.fields[i].type = fields[i]
+   /\ \A i \in 1..NF : (twin.fields[i].tag # 0) <=> tagged
+   /\ \A i \in 1..NF : twin.fields[i].tag \in {0} \cup 1..i
    /\ Len(twin.methods) = Len(methods)
    /\ \A j \in 1..Len(methods) : twin.methods[j].name = methods[j] /\ twin.methods[j].recv = "ptr-this"
 \* how the var block groups the names does not matter
@@ -166,6 +172,6 @@ OutputShape == pc = "done" => Len(out) = 2 * (Len(methods) + NF)
 Terminates == <>(pc = "done")
 
 Export == pc = "done" =>
-   Emit([fields |-> fields, grouping |-> grouping, exported |-> exported, methods |-> methods,
+   Emit([fields |-> fields, grouping |-> grouping, exported |-> exported, tagged |-> tagged, methods |-> methods,
          block |-> Block(fields, grouping), twin |-> twin, out |-> out])
 =============================================================================
